@@ -147,9 +147,14 @@ def run(chk):
             pt = build_named(p, name, desc, fortran=(i % 3 == 1))
             # a small pool of file names, re-used with overwrite=True: what is imported must be what was exported LAST
             fn = os.path.join(tmp, f"pt_{i % 3}.hdf5")
-            pt.export(fn, overwrite=i >= 3)
             m = {"d": d, "N": N, "dt": p.dt, "ranks": [x.ndim for x in p.mpos], "transforms": {True: "both", False: "none"}.get(tr, tr),
                  "bonds": [x.shape[1] for x in p.mpos], "sentinel_cap": sentinel}
+            try:
+                pt.export(fn, overwrite=i >= 3)
+            except Exception as ex:
+                chk.search_cases += 1
+                chk.fail("export-raises", f"export() of a well-formed process tensor (transforms: {m['transforms']}) raises {ex!r}", m)
+                continue
             for kind in ("file", "simple"):
                 try:
                     with warnings.catch_warnings(record=True) as w:
@@ -204,7 +209,11 @@ def run(chk):
             p.dt = 0.1
             pt = p.build()
             fn = os.path.join(tmp, f"cons_{i % 2}.hdf5")
-            pt.export(fn, overwrite=True)
+            try:
+                pt.export(fn, overwrite=True)
+            except Exception as ex:
+                chk.fail("export-raises", f"export() of a well-formed process tensor raises {ex!r}", {"kind": "consumers", "N": N, "transforms": p.tin is not None})
+                continue
             props = [(gint(rng, (d2, d2), -1, 1), gint(rng, (d2, d2), -1, 1)) for _ in range(N)]
             dprops = [([gint(rng, (d2, d2), -1, 1)], [gint(rng, (d2, d2), -1, 1)]) for _ in range(N)]
             rho0, tgt = gint(rng, (d, d), -2, 2), gint(rng, (d, d), -1, 1)
